@@ -22,7 +22,7 @@ from . import c05
 
 PROP = 'C06'
 LEVEL = 'exploration'
-RULE = ('one seeded edit history (3-20 edits, no restart) is run on a base replica (lazy, no extra calls) and on 2-4 further replicas whose '
+RULE = ('one seeded edit history (3-20 edits, a restart - the same for every replica - in about one history in five) is run on a base replica (lazy, no extra calls) and on 2-4 further replicas whose '
         'schedule of metadata recomputation differs: always_consistent=True, or force_consistency / get_record / list_children (fully or partly '
         'consumed) / walk (parked across edits, resumed or abandoned) / open_file_from_iso+read / get_file_from_iso_fp / write_fp to a scratch '
         'disk (once or twice in a row) placed by the seeded scheduler in any gap; all replicas read the same simulated instant per edit index and '
@@ -30,7 +30,7 @@ RULE = ('one seeded edit history (3-20 edits, no restart) is run on a base repli
         'extent/length reported by get_record for every path equal the decoders\' findings in the image written next; non-trivial: >= 3 accepted '
         'edits and >= 2 replicas compared; distinct = distinct (history shape, schedule digest)')
 BUDGET = {'quick': 40, 'thorough': 900}
-PROBES = ['replicas_compared', 'always_consistent_replica', 'extra:force', 'extra:get_record', 'extra:list_children', 'extra:walk_parked_across_edit',
+PROBES = ['replicas_compared', 'replica_restarted', 'always_consistent_replica', 'extra:force', 'extra:get_record', 'extra:list_children', 'extra:walk_parked_across_edit',
           'extra:read_file', 'extra:extract', 'extra:write_scratch', 'extra:write_scratch_twice', 'stale_generator_exception', 'records_vs_decoders_checked',
           'double_write_compared', 'cache_eviction_possible']
 ASSUMPTIONS = ['extra calls do not advance the simulated clock (time is the simulator\'s to hold still), so any byte difference is order dependence',
@@ -39,7 +39,7 @@ SHRINK_LIST_KEYS = ['ops', 'replicas']
 CHUNK = 10
 
 PROFILE = H.Profile('c06', nops=(3, 20), final_restart=False,
-                    weights={'restart': 0, 'add_boot_file': 2, 'add_eltorito': 4, 'add_isohybrid': 2, 'dup_pvd': 0.3, 'rm_file': 9, 'rm_dir': 6, 'rm_link': 6,
+                    weights={'restart': 1.2, 'add_boot_file': 2, 'add_eltorito': 4, 'add_isohybrid': 2, 'dup_pvd': 0.3, 'rm_file': 9, 'rm_dir': 6, 'rm_link': 6,
                              're_add': 9, 'hide': 7})
 
 EXTRA_KINDS = ('force', 'get_record', 'list_children', 'walk_start', 'read_file', 'extract', 'write_scratch', 'has')
@@ -227,10 +227,18 @@ def run_extra(ctx, d, ex, walks):
         ctx.stats['extra_raised:%s:%s' % (k, type(e).__name__)] += 1
 
 
+def _fresh_entropy(w):
+    """Every replica starts every entropy stream from its beginning, also the per-generation ones a restart switches to."""
+    for name in [n for n in w._rngs if n.startswith('entropy.')]:
+        del w._rngs[name]
+    w.generation = 0
+    w.reset_entropy('c06')
+
+
 def run_replica(ctx, plan, rep, label):
     """Returns (image bytes, second image bytes, driver) or None when the history itself was refused."""
     w = ctx.world
-    w.reset_entropy('c06')
+    _fresh_entropy(w)
     cfg = dict(plan['cfg'])
     cfg['always_consistent'] = bool(rep.get('ac')) if rep is not None else False
     d = Driver(w, cfg)
@@ -240,7 +248,7 @@ def run_replica(ctx, plan, rep, label):
         d.new()
         extras = (rep or {}).get('extras') or []
         walks = {}
-        ops = [op for op in plan['ops'] if op['op'] != 'restart']
+        ops = list(plan['ops'])
         for i, op in enumerate(ops + [None]):
             for ex in extras:
                 if ex['gap'] == i or (op is None and ex['gap'] >= i):
@@ -251,6 +259,16 @@ def run_replica(ctx, plan, rep, label):
                 ctx.stats['skipped_invalid'] += 1
                 continue
             w.clock.now = op.get('t', w.clock.now)
+            if op['op'] == 'restart':
+                # every replica reopens at the same point of the history (the object it gets is always-consistent or not as
+                # the replica says); what was parsed is then recomputed on that replica's schedule
+                try:
+                    d.restart(via=('reuse-decoy' if op.get('reuse') == 'decoy' else 'reuse') if op.get('reuse') else 'fp')
+                    d.model.apply(op)
+                except Exception as e:
+                    return ('refused', op, Outcome(False, e))
+                ctx.probes['replica_restarted'] += 1
+                continue
             out = d.apply(op)
             if not out.ok:
                 return ('refused', op, out)
@@ -426,7 +444,7 @@ def execute(plan):
 def run_replica_with_record_check(ctx, plan, rep):
     """Re-run the replica, then force_consistency, query every record, write, compare with the decoders."""
     w = ctx.world
-    w.reset_entropy('c06')
+    _fresh_entropy(w)
     cfg = dict(plan['cfg'])
     cfg['always_consistent'] = bool(rep.get('ac'))
     d = Driver(w, cfg)
@@ -434,9 +452,16 @@ def run_replica_with_record_check(ctx, plan, rep):
         w.clock.now = plan['env']['clock0']
         d.new()
         for op in plan['ops']:
-            if op['op'] == 'restart' or not M.valid(d.model, op):
+            if not M.valid(d.model, op):
                 continue
             w.clock.now = op.get('t', w.clock.now)
+            if op['op'] == 'restart':
+                try:
+                    d.restart()
+                    d.model.apply(op)
+                except Exception:
+                    return
+                continue
             if not d.apply(op).ok:
                 return
         w.clock.now = plan.get('t_final', w.clock.now)
